@@ -63,6 +63,7 @@ type world struct {
 	nsdb    int
 	bare    *mempool.VerifTxList
 	bareOps []string
+	nshrunk int
 }
 
 func (w *world) addrOf(i int) []byte {
@@ -349,15 +350,16 @@ func (w *world) oracle() string {
 		// against the account state the pool has been told about
 		if w.best != nil {
 			st := w.best.st[v.acc]
-			if w.settled {
-				for _, t := range v.txs {
-					if t.GetBody().GetNonce() <= st.nonce {
-						return fmt.Sprintf("account %d: stale transaction nonce %d <= state nonce %d", v.acc, t.GetBody().GetNonce(), st.nonce)
-					}
+			// no stale entry after a processed notification: at every point (the chain side of the harness is
+			// faithful: a block changes nonces only of the senders it names)
+			for _, t := range v.txs {
+				if t.GetBody().GetNonce() <= st.nonce {
+					return fmt.Sprintf("account %d: stale transaction nonce %d <= state nonce %d", v.acc, t.GetBody().GetNonce(), st.nonce)
 				}
-				if len(v.txs) > 0 && v.base.nonce != st.nonce {
-					return fmt.Sprintf("account %d: offered run starts from %d+1 but the state nonce is %d", v.acc, v.base.nonce, st.nonce)
-				}
+			}
+			// the offered run starts at state+1: demanded at settled points (see notify)
+			if w.settled && len(v.txs) > 0 && v.base.nonce != st.nonce {
+				return fmt.Sprintf("account %d: offered run starts from %d+1 but the state nonce is %d", v.acc, v.base.nonce, st.nonce)
 			}
 		}
 	}
@@ -390,9 +392,110 @@ func (w *world) emit(op, res string, nontrivial bool) {
 	}
 	w.run.Op(op, out, nontrivial)
 	if v := w.oracle(); v != "" {
-		w.run.Fail(v, map[string]interface{}{"session_ops": append([]string(nil), w.ops...), "pool_after": w.dump(),
-			"settled": w.settled})
+		w.failPool(v)
 	}
+}
+
+// failPool records a property failure of the current pool session with a minimised operation sequence.
+func (w *world) failPool(v string) {
+	rep := map[string]interface{}{"pool_after": w.dump(), "settled": w.settled}
+	ops := append([]string(nil), w.ops...)
+	if w.nshrunk < 4 {
+		w.nshrunk++
+		if r := w.replayPool(ops); r != "" {
+			ops = w.shrink(ops, 2, w.replayPool)
+			rep["minimised_from"] = len(w.ops)
+			rep["verdict_on_minimised"] = w.replayPool(ops)
+		} else {
+			rep["note"] = "not reproduced by a plain replay of the session (fetch-only or schedule-dependent failure)"
+		}
+	}
+	rep["session_ops"] = ops
+	w.run.Fail(v, rep)
+}
+
+// shrink greedily deletes operations (never the first `keep` ones) while the replay still fails.
+func (w *world) shrink(ops []string, keep int, replay func([]string) string) []string {
+	for pass := 0; pass < 3; pass++ {
+		changed := false
+		for i := len(ops) - 1; i >= keep; i-- {
+			if strings.HasPrefix(ops[i], "block ") {
+				continue // the notification sequence stays as the chain produced it
+			}
+			cand := append(append([]string(nil), ops[:i]...), ops[i+1:]...)
+			if replay(cand) != "" {
+				ops = cand
+				changed = true
+			}
+		}
+		if !changed {
+			break
+		}
+	}
+	return ops
+}
+
+// replayPool re-runs a pool session (operation lines of this session: transactions and blocks are looked up
+// by their ids) on a fresh real MemPool over the same state DB and returns the first oracle failure ("" = none).
+func (w *world) replayPool(ops []string) (verdict string) {
+	smp, sbest, ssettled, sops := w.mp, w.best, w.settled, w.ops
+	defer func() {
+		if e := recover(); e != nil {
+			verdict = fmt.Sprintf("panic: %v", e)
+		}
+		w.mp, w.best, w.settled, w.ops = smp, sbest, ssettled, sops
+	}()
+	atoi := func(x string) int { n, _ := strconv.Atoi(x); return n }
+	for _, op := range ops {
+		f := strings.Fields(op)
+		switch f[0] {
+		case "new":
+			w.mp = mempool.VerifNew(w.sdb)
+			mempool.VerifSetEvict(time.Hour, time.Hour)
+			w.best, w.settled = nil, false
+		case "put":
+			w.mp.VerifPut(types.NewTransaction(w.txs[atoi(f[3])].GetTx()))
+		case "rm":
+			w.mp.VerifRemoveTx(w.txs[atoi(f[2])].GetTx())
+		case "block":
+			b := w.blocks[atoi(f[1])-1]
+			if w.best == nil {
+				w.mp.VerifInit(b.b)
+				w.best, w.settled = b, true
+			}
+			w.settled = w.settledAfter(b)
+			w.mp.VerifBlockArrival(b.b)
+			w.best = b
+		case "evict":
+			if f[1] != "-" {
+				for _, a := range strings.Split(f[1], ",") {
+					w.mp.VerifBackdate(w.addr[atoi(a)], 3*time.Hour)
+				}
+			}
+			w.mp.VerifEvict()
+		case "get":
+			w.mp.VerifGet(math.MaxUint32)
+		case "unconf":
+			w.mp.VerifUnconfirmed(w.addr[atoi(f[1])])
+		}
+		if w.best != nil {
+			if v := w.oracle(); v != "" {
+				return v
+			}
+		}
+	}
+	return ""
+}
+
+// settledAfter: does the notification of b make the pool re-check every account (the block extends or repeats the
+// pool's best block, or the chain id changes and the pool resets)? Otherwise only the accounts named in b are
+// re-checked (first block of a reorganisation) and "the run starts at state+1" is demanded again only after the
+// next notification.
+func (w *world) settledAfter(b *blk) bool {
+	if w.best == nil || b == w.best || b.parent == w.best || b.chain != w.best.chain {
+		return true
+	}
+	return false
 }
 
 // ---------------------------------------------------------------- pool operations
@@ -568,9 +671,13 @@ func (w *world) notify(b *blk, last bool, kind string) {
 	for _, v := range before {
 		nb += len(v.txs)
 	}
+	settled := w.settledAfter(b)
 	res, _ := vh.Guard(func() string { return classify(w.mp.VerifBlockArrival(b.b)) })
 	w.best = b
-	w.settled = last
+	w.settled = settled
+	if !settled {
+		w.run.Count("block:re-checks-named-accounts-only(parent-is-not-best)")
+	}
 	after, _, _, _, _ := w.observe()
 	na := 0
 	for _, v := range after {
@@ -580,7 +687,7 @@ func (w *world) notify(b *blk, last bool, kind string) {
 	if na < nb {
 		w.run.Count("block:removed-some")
 	}
-	if !last {
+	if !settled {
 		for _, v := range after {
 			if v.base.nonce != b.st[v.acc].nonce {
 				w.run.Count("observed:reorg-intermediate-list-base-differs-from-state")
@@ -849,8 +956,62 @@ func (w *world) bareEmit(op, res string, nontrivial bool) {
 	w.bareOps = append(w.bareOps, op)
 	w.run.Op(op, res+" | "+w.bareView(), nontrivial)
 	if v := w.bareOracle(); v != "" {
-		w.run.Fail(v, map[string]interface{}{"list_ops": append([]string(nil), w.bareOps...), "list_after": w.bareView()})
+		w.failBare(v)
 	}
+}
+
+func (w *world) failBare(v string) {
+	rep := map[string]interface{}{"list_after": w.bareView()}
+	ops := append([]string(nil), w.bareOps...)
+	if w.nshrunk < 4 {
+		w.nshrunk++
+		if w.replayBare(ops) != "" {
+			ops = w.shrink(ops, 1, w.replayBare)
+			rep["minimised_from"] = len(w.bareOps)
+			rep["verdict_on_minimised"] = w.replayBare(ops)
+		}
+	}
+	rep["list_ops"] = ops
+	w.run.Fail(v, rep)
+}
+
+// replayBare re-runs list operations on a fresh real txList; first oracle failure or "".
+func (w *world) replayBare(ops []string) (verdict string) {
+	saved := w.bare
+	defer func() {
+		if e := recover(); e != nil {
+			verdict = fmt.Sprintf("panic: %v", e)
+		}
+		w.bare = saved
+	}()
+	atou := func(x string) uint64 { n, _ := strconv.ParseUint(x, 10, 64); return n }
+	st := func(n, b string) *types.State {
+		return &types.State{Nonce: atou(n), Balance: new(big.Int).SetUint64(atou(b)).Bytes()}
+	}
+	for _, op := range ops {
+		f := strings.Fields(op)
+		switch f[0] {
+		case "lnew":
+			w.bare = w.mp.VerifNewTxList(w.addr[0], st(f[1], f[2]))
+		case "lput":
+			w.bare.Put(types.NewTransaction(w.txs[int(atou(f[2]))].GetTx()))
+		case "lfilter":
+			w.bare.FilterByState(st(f[1], f[2]))
+			for _, t := range w.bare.View().Txs {
+				if t.GetBody().GetNonce() <= atou(f[1]) {
+					return "list: stale nonce kept after FilterByState"
+				}
+			}
+		case "lrm":
+			w.bare.RemoveTx(w.txs[int(atou(f[1]))].GetTx())
+		case "lget":
+			w.bare.Get()
+		}
+		if v := w.bareOracle(); v != "" {
+			return v
+		}
+	}
+	return ""
 }
 
 func (w *world) bareNew(n, b uint64) {
@@ -920,9 +1081,31 @@ func (w *world) bareGet() {
 	w.run.Op("lget", orDash(strings.Join(ts, ",")), len(ts) > 0)
 }
 
+// safely runs one session; a Go panic inside the real code is reported as a failure with the session so far.
+func (w *world) safely(kind string, f func()) {
+	defer func() {
+		if e := recover(); e != nil {
+			ops := w.ops
+			if kind == "list" {
+				ops = w.bareOps
+			}
+			w.run.Fail(fmt.Sprintf("panic in the pool code during a %s session: %v", kind, e),
+				map[string]interface{}{kind + "_ops": append([]string(nil), ops...)})
+			w.run.Count("panic:" + kind)
+		}
+	}()
+	f()
+}
+
 func (w *world) bareRandom(nsess, nops int) {
-	rng := w.rng
 	for s := 0; s < nsess; s++ {
+		w.safely("list", func() { w.bareRandomSession(nops) })
+	}
+}
+
+func (w *world) bareRandomSession(nops int) {
+	rng := w.rng
+	{
 		base := uint64(rng.Intn(5))
 		bal := uint64(rng.Intn(60))
 		w.bareNew(base, bal)
@@ -970,12 +1153,14 @@ func (w *world) bareEnumerate(m, k int) {
 		if pos == k {
 			for sn := 0; sn <= m; sn++ {
 				for _, bal := range []uint64{100, 2} {
-					w.bareNew(0, 100)
-					for _, n := range seq {
-						w.barePut(uint64(n), uint64(n), 0) // cost = nonce: a low balance removes the high ones
-					}
-					w.bareFilter(uint64(sn), bal)
-					w.bareGet()
+					w.safely("list", func() {
+						w.bareNew(0, 100)
+						for _, n := range seq {
+							w.barePut(uint64(n), uint64(n), 0) // cost = nonce: a low balance removes the high ones
+						}
+						w.bareFilter(uint64(sn), bal)
+						w.bareGet()
+					})
 					count++
 				}
 			}
@@ -1128,8 +1313,9 @@ func main() {
 	}
 	// pool level
 	for s := 0; s < run.Pick(700, 4000); s++ {
-		w.poolSession(60 + w.rng.Intn(120))
+		n := 60 + w.rng.Intn(120)
+		w.safely("session", func() { w.poolSession(n) })
 	}
 	// concurrency: support only
-	w.concurrent(run.Pick(10, 100))
+	w.safely("session", func() { w.concurrent(run.Pick(10, 100)) })
 }
